@@ -28,8 +28,11 @@ Expand(h, isUp) ==
            nowUp == IF o.op \in {"kill", "term", "burst"} THEN FALSE ELSE IF o.op = "start" THEN TRUE ELSE isUp
        IN <<o>> \o (IF NeedsLook(o) THEN << [op |-> "look", up |-> nowUp] >> ELSE <<>>) \o Expand(Tail(h), nowUp)
 
-RECURSIVE Fill(_, _)
-Fill(i, k) == IF k = 0 THEN <<>> ELSE Fill(i, k - 1) \o << Http(i, "req", "f" \o ToString(k), "POST", "/promises", CreateBody("f" \o ToString(k), Far, TRUE)) >>
+Big == "@LONG@@LONG@@LONG@@LONG@@LONG@@LONG@@LONG@@LONG@@LONG@@LONG@"    \* 100 kB (of base64)
+BigBody(id) == "{\"id\":\"" \o id \o "\",\"timeout\":" \o Far \o ",\"param\":{\"data\":\"" \o Big \o "\"},\"tags\":{\"resonate:invoke\":\"poll://default/w\"}}"
+RECURSIVE Fill(_, _, _)
+Fill(i, k, big) == IF k = 0 THEN <<>> ELSE Fill(i, k - 1, big) \o << Http(i, "req", "f" \o ToString(k), "POST", "/promises",
+                                                                        IF big THEN BigBody("f" \o ToString(k)) ELSE CreateBody("f" \o ToString(k), Far, TRUE)) >>
 
 \* ops[i] as procx steps; pre[p] = TRUE when the burst request for p is a creation
 StepsOf(i, o) ==
@@ -58,7 +61,7 @@ StepsOf(i, o) ==
                          IF o.reqs[k].create
                          THEN Http(i, "req", o.reqs[k].p, "POST", "/promises", CreateBody(o.reqs[k].p, Far, TRUE))
                          ELSE Http(i, "req", o.reqs[k].p, "PATCH", "/promises/" \o o.reqs[k].p, CompleteBody("resolved"))]
-                      \o Fill(i, o.filler)] >>
+                      \o Fill(i, o.filler, o.grow > 0), grow |-> o.grow * 1000000] >>
     [] o.op = "look" ->
          << [do |-> "rows", i |-> i, role |-> "rows"] >>
          \o (IF o.up THEN [k \in 1..Len(SetToSeq(Promises)) |->
@@ -88,7 +91,7 @@ GenNext ==
      \/ DeleteS \/ Acquire \/ Release \/ CreateShort
      \/ (short = "pending" \/ (sched = "secondly" /\ ~ fired)) /\ Wait
      \/ Kill \/ Term \/ Start \/ StartKill(Pick(<<0, 15, 60>>))
-     \/ LET B == {p \in Promises : ps[p] \in {"none", "pending"}} IN Burst(B, Pick(<<0, 2, 6, 1>>), IF n % 2 = 0 THEN 24 ELSE 0)
+     \/ LET B == {p \in Promises : ps[p] \in {"none", "pending"}} IN Burst(B, Pick(<<0, 2, 6, 1>>), IF n % 2 = 0 THEN 24 ELSE 0, 0) \/ Burst(B, 0, 40, 1)
   /\ Filter(hist')
 GenSpec == Init /\ [][GenNext]_vars
 
